@@ -7,6 +7,16 @@
 //     raise_multi()   -> Err(Error::with_messages(TypeError, ["boom", "bam"]))  (two messages: context "boom\nbam")
 //     raise_ok()      -> Ok(nil)
 //   Records: O/R/M as for `run`.
+//
+// c17fs <opts> <main src> <item>...
+//   runs main with the DEFAULT file-system module loader (Vm::with_built_ins() WITHOUT set_module_loader) inside a fresh
+//   temporary directory (under the system temp dir, removed afterwards; the process's current directory is switched to
+//   it for the run and restored).  items, paths relative to that directory, hex:
+//     f:<path>=<content>   a file (any bytes; parent directories are created)
+//     d:<path>             a directory
+//     x:<path>=<content>   a file with mode 000; record `X readable` when the mode does not stop this process (root)
+//   Records: O/R/M as for `run`; `X readable` (see above); `E <hex>` when the directory could not be prepared.
+//   (Also useful for C14: module loading through the real loader.)
 use yarel::error::{Error, ErrorKind};
 use yarel::value::Value;
 use yarel::vm::{self, Vm};
@@ -64,8 +74,81 @@ fn cmd_c17(args: &[&str], out: &mut Vec<String>) {
     crate::LOADS.with(|l| l.borrow_mut().clear());
 }
 
+static FS_COUNTER: std::sync::atomic::AtomicUsize = std::sync::atomic::AtomicUsize::new(0);
+
+fn cmd_c17fs(args: &[&str], out: &mut Vec<String>) {
+    use std::fs;
+    use std::os::unix::fs::PermissionsExt;
+    let o = crate::parse_opts(args[0]);
+    let n = FS_COUNTER.fetch_add(1, std::sync::atomic::Ordering::SeqCst);
+    let dir = std::env::temp_dir().join(format!("yv-c17fs-{}-{}", std::process::id(), n));
+    let old = std::env::current_dir().ok();
+    let mut prepare = || -> std::io::Result<()> {
+        let _ = fs::remove_dir_all(&dir);
+        fs::create_dir_all(&dir)?;
+        for a in &args[2..] {
+            let (tag, rest) = a.split_at(2);
+            let mut it = rest.splitn(2, '=');
+            let rel = crate::unhex_str(it.next().unwrap_or(""));
+            let content = crate::unhex(it.next().unwrap_or(""));
+            let path = dir.join(&rel);
+            match tag {
+                "d:" => fs::create_dir_all(&path)?,
+                "f:" | "x:" => {
+                    if let Some(parent) = path.parent() {
+                        fs::create_dir_all(parent)?;
+                    }
+                    fs::write(&path, &content)?;
+                    if tag == "x:" {
+                        fs::set_permissions(&path, fs::Permissions::from_mode(0o000))?;
+                        if fs::read(&path).is_ok() {
+                            out.push("X readable".to_owned());
+                        }
+                    }
+                }
+                _ => {}
+            }
+        }
+        std::env::set_current_dir(&dir)
+    };
+    match prepare() {
+        Ok(()) => {
+            let mut vm = Vm::with_built_ins();
+            vm.set_printer(crate::local_print);
+            crate::setup(&o);
+            let r = vm::interpret(&mut vm, crate::unhex_str(args[1]), None);
+            crate::emit_result(out, &r);
+        }
+        Err(e) => out.push(format!("E {}", crate::hex(format!("{}", e).as_bytes()))),
+    }
+    if let Some(old) = old {
+        let _ = std::env::set_current_dir(old);
+    }
+    // make everything removable again
+    fn unlock(p: &std::path::Path) {
+        use std::os::unix::fs::PermissionsExt;
+        if let Ok(md) = std::fs::symlink_metadata(p) {
+            if md.is_dir() {
+                if let Ok(rd) = std::fs::read_dir(p) {
+                    for e in rd.flatten() {
+                        unlock(&e.path());
+                    }
+                }
+            } else {
+                let _ = std::fs::set_permissions(p, std::fs::Permissions::from_mode(0o644));
+            }
+        }
+    }
+    unlock(&dir);
+    let _ = fs::remove_dir_all(&dir);
+}
+
 pub fn dispatch(cmd: &str, args: &[&str], out: &mut Vec<String>) -> bool {
     match cmd {
+        "c17fs" => {
+            cmd_c17fs(args, out);
+            true
+        }
         "c17" => {
             cmd_c17(args, out);
             true
